@@ -957,3 +957,292 @@ Proof.
   - split; [exact I|]. repeat split; auto. intros k Hk.
     apply andb_false_iff in Ec. destruct Ec as [Ec|Ec]; [apply K7|apply K8]; auto.
 Qed.
+
+Lemma skipn_cons_nth : forall (l : list dd) p d l', skipn p l = d :: l' ->
+  (p < length l)%nat /\ nth p l nil_dd = d /\ skipn (S p) l = l'.
+Proof.
+  induction l as [|x l IH]; intros p d l' H.
+  - rewrite skipn_nil in H. discriminate.
+  - destruct p.
+    + cbn in H. injection H as -> ->. cbn. repeat split; auto. lia.
+    + cbn [skipn] in H. destruct (IH p d l' H) as (H1 & H2 & H3). cbn [length nth]. repeat split; auto. lia.
+Qed.
+
+Lemma register_all_spec : forall slots,
+  (forall d, In d slots -> live d = true -> 1 <= d_ref d) ->
+  (forall i j, (i < length slots)%nat -> (j < length slots)%nat ->
+     live (nth i slots nil_dd) = true -> live (nth j slots nil_dd) = true ->
+     dkey (nth i slots nil_dd) = dkey (nth j slots nil_dd) -> i = j) ->
+  forall l p tree, skipn p slots = l -> (p <= length slots)%nat -> bits_ok tree ->
+    (forall b r q, tree_da tree b r = Some q <->
+       (q < p)%nat /\ live (nth q slots nil_dd) = true /\ dkey (nth q slots nil_dd) = (b, r)) ->
+    exists tr, register_all tree l p = Some tr /\ bits_ok tr /\
+      (forall b r q, tree_da tr b r = Some q <->
+         (q < length slots)%nat /\ live (nth q slots nil_dd) = true /\ dkey (nth q slots nil_dd) = (b, r)).
+Proof.
+  intros slots Href Huniq. induction l as [|d l IH]; intros p tree Hsk Hp Hbits Hiff.
+  - assert (p = length slots).
+    { destruct (Nat.eq_dec p (length slots)); auto. exfalso.
+      assert (Hl : length (skipn p slots) = (length slots - p)%nat) by apply skipn_length. rewrite Hsk in Hl. simpl in Hl. lia. }
+    subst p. exists tree. split; [reflexivity|]. split; auto.
+  - destruct (skipn_cons_nth _ _ _ _ Hsk) as (Hlt & Hd & Hsk').
+    cbn [register_all]. destruct (Z.eqb_spec (d_tag d) DFTAG_NULL) as [Hnull|Hnn].
+    + apply (IH (S p) tree); auto. intros b r q. rewrite Hiff. split.
+      * intros (H1 & H2 & H3). split; [lia|auto].
+      * intros (H1 & H2 & H3). split; [|auto]. destruct (Nat.eq_dec q p) as [->|]; [|lia].
+        rewrite Hd in H2. unfold live in H2. rewrite Hnull in H2. discriminate.
+    + assert (Hlive : live (nth p slots nil_dd) = true).
+      { rewrite Hd. unfold live. destruct (Z.eqb_spec (d_tag d) DFTAG_NULL); [contradiction|reflexivity]. }
+      assert (Hr1 : 1 <= d_ref d). { apply Href; [rewrite <- Hd; apply nth_In; auto|rewrite <- Hd; auto]. }
+      assert (Hnone : tree_da tree (BASETAG (d_tag d)) (d_ref d) = None).
+      { destruct (tree_da tree (BASETAG (d_tag d)) (d_ref d)) as [q|] eqn:E; auto. exfalso.
+        apply Hiff in E. destruct E as (Hq & Hlq & Hkq).
+        assert (q = p); [|lia]. apply Huniq; auto; try lia. rewrite Hkq, Hd. reflexivity. }
+      destruct (register_spec tree (d_tag d) (d_ref d) p Hbits Hr1 Hnone) as (tr1 & Ereg & Hbits1 & Htr1).
+      rewrite Ereg. apply (IH (S p) tr1); auto. intros b r q. rewrite Htr1.
+      destruct ((BASETAG (d_tag d) =? b) && (d_ref d =? r)) eqn:C.
+      * apply andb_true_iff in C. destruct C as [Cb Cr]. apply Z.eqb_eq in Cb. apply Z.eqb_eq in Cr. split.
+        -- intros E. injection E as <-. split; [lia|]. split; auto. rewrite Hd. unfold dkey. congruence.
+        -- intros (H1 & H2 & H3). f_equal. apply Huniq; auto; try lia. rewrite H3, Hd. unfold dkey. congruence.
+      * rewrite Hiff. split.
+        -- intros (H1 & H2 & H3). split; [lia|auto].
+        -- intros (H1 & H2 & H3). split; [|auto]. destruct (Nat.eq_dec q p) as [->|]; [|lia]. exfalso.
+           rewrite Hd in H3. unfold dkey in H3. injection H3 as <- <-. rewrite !Z.eqb_refl in C. discriminate.
+Qed.
+
+Lemma fold_max_spec : forall (l : list dd) a M, (forall d, In d l -> 0 <= d_ref d <= M) -> 0 <= a <= M ->
+  let m := fold_left (fun a d => Z.max a (d_ref d)) l a in
+  a <= m <= M /\ forall d, In d l -> d_ref d <= m.
+Proof.
+  induction l as [|x l IH]; intros a M Hl Ha; cbn [fold_left].
+  - split; [lia|]. intros d [].
+  - assert (Hx : 0 <= d_ref x <= M) by (apply Hl; left; auto).
+    destruct (IH (Z.max a (d_ref x)) M) as [H1 H2]; [intros; apply Hl; right; auto|lia|].
+    split; [lia|]. intros d [<-|Hd]; [lia|auto].
+Qed.
+
+(** Hclose followed by Hopen: whatever the cache mode and the dirty flags, the DD blocks read back are the
+    table in memory, and the rebuilt tag tree satisfies the invariant again *)
+Lemma hreopen_spec : forall st, Inv st ->
+  exists st', hreopen st = Some st' /\ Inv st' /\ m_slots st' = m_slots st /\ m_cache st' = true.
+Proof.
+  intros st I. destruct (hisync_spec st I) as (I1 & S1 & T1 & M1 & C1 & N1 & Hclean).
+  unfold hreopen. set (st1 := hisync st) in *. clearbody st1.
+  pose proof (i_nd st1 I1) as Hn. pose proof (i_disk st1 I1) as D.
+  destruct (all_clean_image st1 Hn D Hclean) as (Eh & Ed).
+  destruct D as [K1 K2 K3 K4 K5 K6 K7 K8].
+  unfold htpstart. rewrite Eh, Ed.
+  destruct (length (m_bdirty st1)) as [|m] eqn:Enb; [lia|].
+  rewrite (read_image (nddsn st1) m 0 (S m) (m_slots st1)) by lia.
+  assert (Huniq := Inv_unique st1 I1).
+  destruct (register_all_spec (m_slots st1)
+              (fun d Hin Hl => proj1 (proj1 (proj2 (proj2 (proj2 (proj2 (i_live st1 I1 d Hin Hl)))))))
+              Huniq (m_slots st1) 0%nat [] eq_refl ltac:(lia)) as (tr & Ereg & Hbits & Htr).
+  { intros b ti H. discriminate. }
+  { intros b r q. unfold tree_da. cbn [tt_find]. split; [discriminate|intros (H & _); lia]. }
+  rewrite Ereg. eexists. split; [reflexivity|].
+  cbn [m_slots m_cache]. split; [|split; [congruence|reflexivity]].
+  pose proof (fold_max_spec (m_slots st1) 0 MAX_REF (i_refs st1 I1) ltac:(unfold MAX_REF; lia)) as (Hm1 & Hm2).
+  set (mx := fold_left (fun a d => Z.max a (d_ref d)) (m_slots st1) 0) in *.
+  destruct I1 as [Ind Ilive Irefs Ibits Isound Icomp Imax Idisk].
+  constructor; unfold slot, nddsn; cbn [m_ndds m_slots m_tree m_maxref]; fold (nddsn st1).
+  - exact Ind.
+  - exact Ilive.
+  - exact Irefs.
+  - exact Hbits.
+  - intros b r p H. apply Htr in H. destruct H as (Hp & Hl & Hk). unfold dkey in Hk. injection Hk as Hb Hr. auto.
+  - intros p Hp Hl. apply Htr. auto.
+  - split; [lia|]. intros d Hin _. apply Hm2. auto.
+  - constructor; unfold nddsn; cbn [m_ndds m_slots m_bdirty m_dhdr m_dslots m_cache m_fdirty]; fold (nddsn st1);
+      rewrite ?repeat_length.
+    + lia.
+    + exact K2.
+    + rewrite firstn_length. unfold image_hdrs. rewrite map_length, seq_length. lia.
+    + rewrite firstn_length, map_length. lia.
+    + intros q Hq _. rewrite firstn_all2 by (rewrite map_length; lia).
+      rewrite (nth_indep _ None (Some nil_dd)) by (rewrite map_length; lia). rewrite map_nth. reflexivity.
+    + intros k Hk _. rewrite firstn_all2 by (unfold image_hdrs; rewrite map_length, seq_length; lia).
+      unfold image_hdrs. set (f := fun k0 => Some (negb (S k0 =? S m)%nat)).
+      rewrite (nth_indep _ None (f 0%nat)) by (rewrite map_length, seq_length; auto).
+      rewrite (map_nth f). rewrite seq_nth by auto. reflexivity.
+    + intros C. discriminate.
+    + intros _ k Hk. apply nth_repeat_lt. auto.
+Qed.
+
+(* ------------------------------------------------------------------------------------------ *)
+(** * Initial state, cache switches, reference allocation *)
+
+Lemma htpinit_Inv : forall n, 0 <= n -> Inv (htpinit n) /\ abs (htpinit n) = [] /\ m_tree (htpinit n) = [] /\
+  m_cache (htpinit n) = true.
+Proof.
+  intros n Hn. unfold htpinit.
+  set (nn := if n =? 0 then DEF_NDDS else if n <? MIN_NDDS then MIN_NDDS else n).
+  assert (Hnn : 0 < nn).
+  { unfold nn, DEF_NDDS, MIN_NDDS. destruct (Z.eqb_spec n 0); [lia|]. destruct (Z.ltb_spec n 4); lia. }
+  assert (Hin : forall d, In d (repeat nil_dd (Z.to_nat nn)) -> d = nil_dd) by (intros d H; eapply repeat_spec; eauto).
+  split; [|split; [|split; reflexivity]].
+  - constructor; unfold slot, nddsn; cbn [m_ndds m_slots m_tree m_maxref].
+    + lia.
+    + intros d H Hl. rewrite (Hin d H) in Hl. discriminate.
+    + intros d H. rewrite (Hin d H). unfold nil_dd, DFREF_NONE, MAX_REF. cbn [d_ref]. lia.
+    + intros b ti H. discriminate.
+    + intros b r p H. discriminate.
+    + intros p Hp Hl. rewrite repeat_length in Hp. rewrite nth_repeat_lt in Hl by auto. discriminate.
+    + split; [unfold MAX_REF; lia|]. intros d H Hl. rewrite (Hin d H) in Hl. discriminate.
+    + constructor; unfold nddsn; cbn [m_ndds m_slots m_bdirty m_dhdr m_dslots m_cache m_fdirty length];
+        rewrite ?repeat_length; try lia; try discriminate.
+      * intros q Hq _. rewrite !nth_repeat_lt by lia. reflexivity.
+      * intros k Hk _. destruct k; [reflexivity|lia].
+      * intros _ k Hk. destruct k; [reflexivity|lia].
+  - unfold abs. cbn [m_slots]. apply absl_repeat_nil.
+Qed.
+
+Lemma Inv_set_maxref : forall st mx, Inv st -> m_maxref st <= mx <= MAX_REF -> Inv (set_maxref st mx).
+Proof.
+  intros st mx I Hmx. destruct I as [Ind Ilive Irefs Ibits Isound Icomp Imax Idisk].
+  constructor; auto.
+  - cbn [set_maxref m_maxref m_slots]. split; [lia|]. intros d H Hl. destruct Imax as [_ Hm]. specialize (Hm d H Hl). lia.
+  - apply (disk_ok_eq st); auto. repeat split; reflexivity.
+Qed.
+
+Lemma Inv_set_tree : forall st tr, Inv st -> bits_ok tr ->
+  (forall b r, tree_da tr b r = tree_da (m_tree st) b r) -> Inv (set_tree st tr).
+Proof.
+  intros st tr I Hb Hsame. destruct I as [Ind Ilive Irefs Ibits Isound Icomp Imax Idisk].
+  constructor; auto.
+  - intros b r p H. cbn [set_tree m_tree] in H. rewrite Hsame in H. apply (Isound b r p H).
+  - intros p Hp Hl. cbn [set_tree m_tree]. rewrite Hsame. apply (Icomp p Hp Hl).
+  - apply (disk_ok_eq st); auto. repeat split; reflexivity.
+Qed.
+
+Lemma hcache_spec : forall st b, Inv st -> Inv (hcache st b) /\ m_slots (hcache st b) = m_slots st.
+Proof.
+  intros st b I. unfold hcache.
+  set (st1 := if negb b && m_cache st then hisync st else st).
+  assert (H1 : Inv st1 /\ m_slots st1 = m_slots st /\ (b = false -> all_clean st1)).
+  { unfold st1. destruct (negb b && m_cache st) eqn:E.
+    - destruct (hisync_spec st I) as (I1 & S1 & _ & _ & _ & _ & Hc). auto.
+    - split; [auto|]. split; [auto|]. intros ->. cbn [negb andb] in E. intros k Hk.
+      apply (k_nocache st (i_disk st I)); auto. }
+  destruct H1 as (I1 & S1 & Hc). clearbody st1. split; [|exact S1].
+  apply (Inv_new_disk st1); auto.
+  destruct (i_disk st1 I1) as [K1 K2 K3 K4 K5 K6 K7 K8].
+  constructor; unfold nddsn; cbn [m_ndds m_slots m_bdirty m_dhdr m_dslots m_cache m_fdirty]; auto.
+Qed.
+
+Lemma hnewref_Inv : forall st st' v, Inv st -> hnewref st = (st', v) -> Inv st' /\ m_slots st' = m_slots st.
+Proof.
+  intros st st' v I H. unfold hnewref in H. destruct (Z.ltb_spec (m_maxref st) MAX_REF).
+  - apply pair_equal_spec in H. destruct H as [<- _]. split; [|reflexivity]. apply Inv_set_maxref; auto. lia.
+  - apply pair_equal_spec in H. destruct H as [<- _]. auto.
+Qed.
+
+Lemma htagnewref_Inv : forall st t st' v, Inv st -> htagnewref st t = (st', v) -> Inv st' /\ m_slots st' = m_slots st.
+Proof.
+  intros st t st' v I H. unfold htagnewref in H.
+  destruct (tt_find (m_tree st) (BASETAG t)) as [ti|] eqn:Ef.
+  - destruct (i_bits st I _ _ Ef) as (W & H0 & Hb).
+    destruct (bv_find_next_zero_spec _ W) as (b' & r & Hz & Wb' & Hsame & _).
+    rewrite Hz in H.
+    assert (Hgoal : Inv (set_tree st (tt_set (m_tree st) (BASETAG t) (mkti b' (ti_da ti))))).
+    { apply Inv_set_tree; auto.
+      - intros b2 ti2 Hf. rewrite tt_find_set in Hf. destruct (Z.eqb_spec (BASETAG t) b2) as [<-|].
+        + injection Hf as <-. cbn [ti_bv ti_da]. split; auto. split; [rewrite Hsame by lia; auto|].
+          intros r0 Hr0. rewrite Hsame by lia. apply Hb. auto.
+        + apply (i_bits st I _ _ Hf).
+      - intros b2 r2. unfold tree_da. rewrite tt_find_set. destruct (Z.eqb_spec (BASETAG t) b2) as [<-|]; auto.
+        rewrite Ef. reflexivity. }
+    destruct (MAX_REF <? r); apply pair_equal_spec in H; destruct H as [<- _]; auto.
+  - apply pair_equal_spec in H. destruct H as [<- _]. auto.
+Qed.
+
+(* ------------------------------------------------------------------------------------------ *)
+(** * Every mutating operation refines the specification step *)
+
+Definition rel (st : mst) (s : smap) : Prop := Inv st /\ Permutation (abs st) s.
+
+Lemma mut_tag_facts : forall t, mut_tag t = true ->
+  uint16 t = true /\ BASETAG t <> 0 /\ BASETAG t <> 1 /\ BASETAG t <> 108 /\ t <> 0 /\ t <> 1 /\ t <> 108.
+Proof.
+  intros t H. unfold mut_tag in H. repeat rewrite andb_true_iff in H. destruct H as [[[[Hu H0] H1] H108] _].
+  apply negb_true_iff in H0, H1, H108. apply Z.eqb_neq in H0, H1, H108.
+  unfold DFTAG_WILDCARD, DFTAG_NULL, DFTAG_FREE in *.
+  repeat split; auto; intros ->; [apply H0|apply H1|apply H108]; reflexivity.
+Qed.
+
+Lemma nonspecial_base : forall t, uint16 t = true -> is_special t = false -> BASETAG t = t.
+Proof.
+  intros t Hu Hs. unfold is_special in Hs. apply negb_false_iff in Hs. tag_facts_of t Hu.
+  destruct Hf as [[[[[[[_ Hcase] _] _] _] _] _] _]. rewrite Hs in Hcase. cbn [andb negb orb] in Hcase.
+  rewrite orb_false_r in Hcase. apply Z.eqb_eq in Hcase. exact Hcase.
+Qed.
+
+Lemma entry_key : forall st p t r, Inv st -> tree_da (m_tree st) (BASETAG t) r = Some p ->
+  key_eq t r (entry_of (slot st p)) = true /\ (p < length (m_slots st))%nat /\ live (slot st p) = true.
+Proof.
+  intros st p t r I H. destruct (i_sound st I _ _ _ H) as (Hp & Hl & Hb & Hr). split; auto.
+  unfold key_eq, entry_of. cbn [e_tag e_ref]. rewrite Hb, Hr, !Z.eqb_refl. reflexivity.
+Qed.
+
+Lemma frame_live : forall st s p, Inv st -> Permutation (abs st) s -> (p < length (m_slots st))%nat ->
+  live (slot st p) = true ->
+  exists R, Permutation s (entry_of (slot st p) :: R) /\ NoDup (map ekey s) /\
+            forall st' v, m_slots st' = upd (m_slots st) p v -> Permutation (abs st') (optl v ++ R).
+Proof.
+  intros st s p I Hperm Hp Hl. destruct (frame_at st p Hp) as (R & H1 & H2). exists R.
+  unfold optl in H1. rewrite Hl in H1. cbn [app] in H1. split; [|split; auto].
+  - eapply Permutation_trans; [apply Permutation_sym; exact Hperm|exact H1].
+  - apply (perm_nodup_keys _ _ Hperm). apply Inv_nodup. auto.
+Qed.
+
+Lemma invalid_iff : forall d, dd_ok d ->
+  (d_off d =? INVALID_OFFSET) && (d_len d =? INVALID_LENGTH) = (d_len d =? INVALID_LENGTH).
+Proof.
+  intros d (_ & _ & _ & _ & _ & [[Ho Hl]|[Ho Hl]]); rewrite ?Ho, ?Hl; unfold INVALID_OFFSET, INVALID_LENGTH, VALID_OFFSET in *.
+  - reflexivity.
+  - destruct (Z.eqb_spec (d_len d) (-1)); [lia|]. reflexivity.
+Qed.
+
+Lemma put_step : forall st s t r l st' rm s' rs, rel st s ->
+  hputelement st t r l = (st', rm) -> s_step s (OPut t r l) = (s', rs) -> rs <> RNoDomain ->
+  rel st' s' /\ rm = rs.
+Proof.
+  intros st s t r l st' rm s' rs [I Hperm] Hm Hs Hnd. cbn [s_step] in Hs.
+  destruct (mut_tag t && negb (is_special t) && mut_ref r && (1 <=? l)) eqn:Edom;
+    [|cbn [negb] in Hs; apply pair_equal_spec in Hs; destruct Hs as [_ <-]; congruence].
+  cbn [negb] in Hs. repeat rewrite andb_true_iff in Edom. destruct Edom as [[[Hmt Hns] Hmr] Hl1].
+  apply negb_true_iff in Hns. apply Z.leb_le in Hl1.
+  unfold mut_ref in Hmr. apply andb_true_iff in Hmr. destruct Hmr as [Hr1 Hr2]. apply Z.leb_le in Hr1, Hr2.
+  destruct (mut_tag_facts t Hmt) as (Hu & B0 & B1 & B108 & T0 & T1 & T108).
+  pose proof (nonspecial_base t Hu Hns) as Hb.
+  rewrite (lookup_agree st s t r I Hperm) in Hs.
+  destruct (tree_da (m_tree st) (BASETAG t) r) as [p|] eqn:Eda.
+  - (* the element exists *)
+    destruct (entry_key st p t r I Eda) as (Hk & Hp & Hlive).
+    pose proof (i_live st I _ (slot_in st p Hp) Hlive) as Hok.
+    unfold hputelement in Hm. cbv zeta in Hm. rewrite Hb in Hm. rewrite hfind_exact in Hm by lia.
+    rewrite Eda in Hm. rewrite (select_live st p I Hp Hlive) in Hm.
+    change (is_special_dd (slot st p)) with (is_special (e_tag (entry_of (slot st p)))) in Hm.
+    destruct (is_special (e_tag (entry_of (slot st p)))) eqn:Esp.
+    { apply pair_equal_spec in Hs. destruct Hs as [_ <-]. congruence. }
+    rewrite (maxref_bump_id st p I Hp Hlive) in Hm. rewrite (invalid_iff _ Hok) in Hm.
+    change (e_len (entry_of (slot st p))) with (d_len (slot st p)) in Hs.
+    destruct (d_len (slot st p) =? INVALID_LENGTH) eqn:Einv.
+    + apply pair_equal_spec in Hs. destruct Hs as [<- <-]. apply pair_equal_spec in Hm. destruct Hm as [<- <-].
+      split; [|reflexivity].
+      destruct (htpupdate_spec st p VALID_OFFSET l I Hp Hlive ltac:(right; auto)) as (I2 & Hs2 & _).
+      split; [exact I2|].
+      destruct (frame_live st s p I Hperm Hp Hlive) as (R & HsR & Hnd' & Hfr).
+      specialize (Hfr _ _ Hs2). unfold optl in Hfr. rewrite live_mk in Hfr by (apply (dd_ok_tag _ Hok)).
+      cbn [app] in Hfr. eapply Permutation_trans; [exact Hfr|]. apply Permutation_sym.
+      apply (setlen_frame s (entry_of (slot st p)) R t r l HsR Hnd' Hk).
+    + destruct (Z.ltb_spec (d_len (slot st p)) l), (Z.leb_spec l (d_len (slot st p))); try lia;
+        apply pair_equal_spec in Hs; destruct Hs as [<- <-]; apply pair_equal_spec in Hm; destruct Hm as [<- <-];
+        (split; [split; auto|reflexivity]).
+  - (* a new element *)
+    destruct (hput_new st t r l I Hu Hb T0 T1 T108 ltac:(lia) Hl1 Eda) as (st2 & E2 & I2 & Habs & _).
+    rewrite E2 in Hm. apply pair_equal_spec in Hm. destruct Hm as [<- <-].
+    apply pair_equal_spec in Hs. destruct Hs as [<- <-]. split; [|reflexivity]. split; [exact I2|].
+    eapply Permutation_trans; [exact Habs|]. eapply Permutation_trans; [apply perm_skip; exact Hperm|].
+    apply Permutation_cons_append.
+Qed.
